@@ -283,6 +283,15 @@ func (m *MetricMapper) InitFromFile(fileName string) error {
 	return m.InitFromYAMLString(string(mappingStr))
 }
 
+// GetDefaults returns the defaults of the currently loaded configuration. A
+// reload replaces them under the mapper's lock, so concurrent readers must go
+// through this accessor instead of reading the Defaults field.
+func (m *MetricMapper) GetDefaults() MapperConfigDefaults {
+	m.mutex.RLock()
+	defer m.mutex.RUnlock()
+	return m.Defaults
+}
+
 // UseCache tells the mapper to use a cache that implements the MetricMapperCache interface.
 // This cache MUST be thread-safe!
 func (m *MetricMapper) UseCache(cache MetricMapperCache) {
